@@ -217,11 +217,16 @@ def spec (ie : IEEE) (kind name : String) (input : V) (args : List V) (o : Obs) 
       | "floor", .flt f => specRounding name f o
       | "ceil", .flt f => specRounding name f o
       | "round", .flt f => specRounding name f o
+      -- a whole number is its own floor, ceiling and rounding
+      | "floor", .int a => exactOrNot a o
+      | "ceil", .int a => exactOrNot a o
+      | "round", .int a => exactOrNot a o
       | _, _ => none
     | some x, [arg] =>
       if name == "round" then
         match x, arg with
         | .flt f, .sc (.int n) => if n ≤ 0 then specRounding name f o else none
+        | .int a, .sc (.int n) => if n ≤ 0 then exactOrNot a o else none
         | _, _ => none
       else if !isBin name then none
       else
